@@ -51,6 +51,14 @@ type tNode struct {
 func tFile(name string, size int, seed int64) *tNode {
 	return &tNode{Name: name, Kind: "file", Size: size, Seed: seed}
 }
+// tZero is a file of size bytes that is all NUL except for [dataFrom, dataTo).
+func tZero(name string, size, dataFrom, dataTo int) *tNode {
+	b := make([]byte, size)
+	for i := dataFrom; i < dataTo && i < size; i++ {
+		b[i] = byte(i*7+1) | 1
+	}
+	return &tNode{Name: name, Kind: "file", Lit: b}
+}
 func tDir(name string, ch ...*tNode) *tNode { return &tNode{Name: name, Kind: "dir", Children: ch} }
 func tLink(name, target string) *tNode      { return &tNode{Name: name, Kind: "symlink", Target: target} }
 
@@ -145,7 +153,7 @@ var c18OddNames = []string{
 }
 
 func c18Profiles() []string {
-	return []string{"small files", "chunk boundaries", "deep nesting", "many siblings", "odd names", "symbolic links", "empty directories", "duplicate contents", "mixed", "sharded directory", "multi-level file", "long names", "almost-sharded directory"}
+	return []string{"small files", "chunk boundaries", "deep nesting", "many siblings", "odd names", "symbolic links", "empty directories", "duplicate contents", "mixed", "sharded directory", "multi-level file", "long names", "almost-sharded directory", "zero-filled files"}
 }
 
 // c18Tree draws the source tree of a profile; the root's name is the source's base name.
@@ -347,6 +355,16 @@ func c18Tree(profile string, seed int64, thorough bool) *tNode {
 				root.add(tFile(nm, i%3, r.Int63()))
 			}
 		}
+	case "zero-filled files":
+		// long runs of NUL bytes (disk images, blank database files): at the start, in the middle, at the
+		// very end, sizes that are and are not multiples of the usual buffer sizes
+		root.add(tZero("all-zero-128k.bin", 128<<10, 0, 0))
+		root.add(tZero("all-zero-65536.bin", 65536, 0, 0))
+		root.add(tZero("disk.img", 1<<20, 0, 300<<10))
+		root.add(tZero("hole-in-the-middle.bin", 512<<10, 100<<10, 200<<10))
+		root.add(tZero("zero-tail-odd-size.bin", 300<<10+17, 0, 100<<10))
+		root.add(tZero("zero-head.bin", 256<<10, 192<<10, 256<<10))
+		root.add(tFile("plain.txt", 20, r.Int63()))
 	case "multi-level file":
 		// more than 174 chunks: the file DAG gets a second level of link nodes
 		root.add(tFile("huge.bin", 174*c18Chunk+1+r.Intn(3*c18Chunk), r.Int63()))
@@ -542,11 +560,27 @@ func runC18(t *mon.T, raw json.RawMessage) {
 
 	// ---- car extract, twice
 	allEqual := true
-	for i, mode := range []string{"-f", "stdin (pipe)", "stdin (file)", "-f (output directory below a symlinked directory)"} {
+	for i, mode := range []string{"-f", "stdin (pipe)", "stdin (file)", "-f (output directory below a symlinked directory)", "-f (older, longer files already in place)", "-f . (into the current directory)"} {
 		out := filepath.Join(T, fmt.Sprintf("out-%d", i))
 		must(os.Mkdir(out, 0o755))
 		var er carRun
 		switch mode {
+		case "-f . (into the current directory)":
+			// the output directory is named "." and the tool runs inside it
+			er = runCar(out, nil, 4*time.Minute, "extract", "-f", carPath, ".")
+		case "-f (older, longer files already in place)":
+			// re-extraction into a directory that holds an earlier, LONGER version of the regular files
+			k := 0
+			for p, e := range want {
+				if e.Type != "file" || k >= 40 {
+					continue
+				}
+				k++
+				dst := filepath.Join(out, expectUnder, p)
+				must(os.MkdirAll(filepath.Dir(dst), 0o755))
+				must(os.WriteFile(dst, bytes.Repeat([]byte("old "), int(e.Size)/4+300), 0o644))
+			}
+			er = runCar(T, nil, 4*time.Minute, "extract", "-f", carPath, out)
 		case "-f (output directory below a symlinked directory)":
 			// the user names the output directory through a symlinked ancestor (a mount point alias)
 			must(os.Symlink(filepath.Base(out), out+"-alias"))
@@ -717,7 +751,7 @@ func init() {
 		MinCover: map[string]int{
 			"create:wrap": 40, "create:no-wrap": 40, "create:several": 15, "create:dot": 15, "create:version-1": 60, "create:version-2": 60,
 			"archive:carv1": 60, "archive:carv2": 60, "root-agrees": 150,
-			"extract:-f": 150, "extract:-f (output directory below a symlinked directory)": 150, "extract:stdin (pipe)": 150, "extract:stdin (file)": 150,
+			"extract:-f": 150, "extract:-f . (into the current directory)": 150, "extract:-f (older, longer files already in place)": 150, "extract:-f (output directory below a symlinked directory)": 150, "extract:stdin (pipe)": 150, "extract:stdin (file)": 150,
 			"tree-reproduced:-f": 100, "tree-reproduced:stdin (pipe)": 50, "tree-reproduced:stdin (file)": 100,
 			"trees-with:empty-files": 10, "trees-with:multi-chunk-files": 10, "trees-with:empty-dirs": 10, "trees-with:sharded-dirs": 4,
 			"trees-with:symlink": 20, "trees-with:non-ascii-names": 10, "trees-with:depth>=15": 10, "trees-with:>=100-entries": 10,
